@@ -279,4 +279,50 @@ def committedMetas (dropEmpty : Bool) (reg : List SegEntry) : List SegEntry × L
 def managedOpenWriteOps (order : List Nat) (mg : Payload) (p : Path) : List Op :=
   order.filterMap (fun c => if c = 1 then some (Op.atomicWrite MANAGED mg) else if c = 2 then some (Op.create p) else none)
 
+/-! ## file names of a segment meta -/
+
+/-- a `SegmentMeta` as far as file names go: segment id, delete opstamp, temp-store flag -/
+structure SegMetaM where
+  seg : Nat
+  delOp : Nat
+  includeTemp : Bool
+deriving Repr, DecidableEq
+
+/-- abstract file name: (segment, component index, delete opstamp for the delete component)
+-- mirrors: src/index/index_meta.rs::relative_path -/
+def relPathM (m : SegMetaM) (c : Nat) : Nat × Nat × Nat :=
+  (m.seg, c, if c + 1 = Gen.NUM_COMPONENTS then m.delOp else 0)
+
+/-- `SegmentMeta::list_files`: every component, minus the temp store once untracked
+-- mirrors: src/index/index_meta.rs::list_files (Gen.LIST_FILES_DROPS_ONLY_TEMPSTORE) -/
+def listFilesM (m : SegMetaM) : List (Nat × Nat × Nat) :=
+  ((List.range Gen.NUM_COMPONENTS).filter (fun c => m.includeTemp || c != Gen.TEMPSTORE_INDEX)).map (relPathM m)
+
+/-- `ManagedDirectory::atomic_write(meta.json)` as storage operations in the extracted order of
+its two steps (1 = register_file_as_managed, 2 = atomic_write of the wrapped directory)
+-- mirrors: src/directory/managed_directory.rs::atomic_write -/
+def managedAtomicWriteOps (order : List Nat) (mg : Payload) (p : Path) (b : Payload) : List Op :=
+  order.filterMap (fun c => if c = 1 then some (Op.atomicWrite MANAGED mg) else if c = 2 then some (Op.atomicWrite p b) else none)
+
+/-- R4: `meta.json` is written only when the newest `.managed.json` lists it, and a new
+`.managed.json` keeps listing it -/
+def MetaRegOK (s : Dir) : Op → Prop
+  | .atomicWrite q b =>
+    (q = META → META ∈ visibleManaged s) ∧ (q = MANAGED → META ∈ visibleManaged s → META ∈ b.refs)
+  | _ => True
+
+def metaRegOK (s : Dir) : Op → Bool
+  | .atomicWrite q b =>
+    (q != META || (visibleManaged s).contains META) &&
+    (q != MANAGED || !(visibleManaged s).contains META || b.refs.contains META)
+  | _ => true
+
+def MetaRegDisc : Dir → List Op → Prop
+  | _, [] => True
+  | s, op :: t => MetaRegOK s op ∧ MetaRegDisc (s.step op) t
+
+/-- if any version of `meta.json` exists or is pending, the newest `.managed.json` lists it -/
+def MInv (s : Dir) : Prop :=
+  ((s.atom META).dur ≠ none ∨ (s.atom META).pend ≠ []) → META ∈ visibleManaged s
+
 end TantivyModel.GC
